@@ -220,7 +220,31 @@ fn string_decimal(s: &str) -> (Verdict, Vec<&'static str>, bool) {
             Err(m) => return (fail(m), classes, false),
         }
     }
+    // the same numeral as a BARE JSON number token (no quotes): a reader may refuse it, but if it accepts it,
+    // the token must be read as the number it denotes
+    if is_json_number_token(s) {
+        let bare = lenient(exp.clone());
+        let entries: Vec<(&str, Result<Result<Nat, String>, String>)> = vec![
+            ("Decimal256 cosmwasm JSON (bare number)", guarded(|| cosmwasm_std::from_slice::<Decimal256>(s.as_bytes()).map(|d| from_u256(&d.0)).map_err(|e| e.to_string()))),
+            ("Decimal256 serde_json (bare number)", guarded(|| serde_json::from_str::<Decimal256>(s).map(|d| from_u256(&d.0)).map_err(|e| e.to_string()))),
+        ];
+        for (what, got) in entries {
+            match judge_parse(what, s, &bare, got) {
+                Ok(_) => classes.push("o:bare-json-number-judged"),
+                Err(m) => return (fail(m), classes, false),
+            }
+        }
+    }
     (Verdict::Pass, classes, rejected)
+}
+
+/// a JSON number token without sign and exponent: `0`, `12`, `0.5`, `12.050` (no leading zeros, no empty part)
+fn is_json_number_token(s: &str) -> bool {
+    let (w, f) = match s.split_once('.') {
+        Some((w, f)) => (w, Some(f)),
+        None => (s, None),
+    };
+    !w.is_empty() && all_digits(w) && (w == "0" || !w.starts_with('0')) && f.map(|f| !f.is_empty() && all_digits(f)).unwrap_or(true)
 }
 
 fn string_uint(s: &str) -> (Verdict, Vec<&'static str>, bool) {
@@ -243,6 +267,19 @@ fn string_uint(s: &str) -> (Verdict, Vec<&'static str>, bool) {
                 classes.push(c)
             }
             Err(m) => return (fail(m), classes, false),
+        }
+    }
+    if is_json_number_token(s) && !s.contains('.') {
+        let bare = lenient(exp.clone());
+        let entries: Vec<(&str, Result<Result<Nat, String>, String>)> = vec![
+            ("Uint256 cosmwasm JSON (bare number)", guarded(|| cosmwasm_std::from_slice::<Uint256>(s.as_bytes()).map(|d| from_u256(&d.0)).map_err(|e| e.to_string()))),
+            ("Uint256 serde_json (bare number)", guarded(|| serde_json::from_str::<Uint256>(s).map(|d| from_u256(&d.0)).map_err(|e| e.to_string()))),
+        ];
+        for (what, got) in entries {
+            match judge_parse(what, s, &bare, got) {
+                Ok(_) => classes.push("o:bare-json-number-judged"),
+                Err(m) => return (fail(m), classes, false),
+            }
         }
     }
     (Verdict::Pass, classes, rejected)
